@@ -5,15 +5,20 @@ use crate::{
 
 pub fn can_be_used<T, S>(lhs: Type, rhs: Type, can_be_used: T, return_type: S) -> bool
 where
-    T: FnOnce(&Type, &Type) -> bool,
-    S: FnOnce(&Type, &Type) -> Type,
+    T: Fn(&Type, &Type) -> bool,
+    S: Fn(&Type, &Type) -> Type,
 {
-    let Some(var_type) = lhs.mut_element_type() else {
-        return false;
+    let check = |lhs: &Type| {
+        let Some(var_type) = lhs.mut_element_type() else {
+            return false;
+        };
+        can_be_used(&var_type, &rhs) && return_type(&var_type, &rhs).matches(&var_type)
     };
-    let can_be_used = can_be_used(&var_type, &rhs);
-    let return_type = return_type(&var_type, &rhs);
-    can_be_used && return_type.matches(&var_type)
+    // the result is stored in whichever cell lhs turns out to be: it has to fit each of them
+    match &lhs {
+        Type::Multi(types) => types.iter().all(check),
+        lhs => check(lhs),
+    }
 }
 
 pub fn exec<T: FnOnce(Variable, Variable) -> Variable>(
